@@ -688,6 +688,9 @@ func restoreAttributeValue(attr string, stored []byte) (string, error) {
 	case object.FilterPayloadChecksum:
 		return hex.EncodeToString(stored), nil
 	case object.FilterSplitID:
+		if len(stored) == 0 { // object has no split ID, like any other missing attribute
+			return "", nil
+		}
 		uid, err := uuid.FromBytes(stored)
 		if err != nil {
 			return "", invalidMetaBucketKeyErr([]byte{metaPrefixAttrIDPlain}, fmt.Errorf("decode split ID: decode UUID: %w", err))
